@@ -619,7 +619,51 @@ class SymDatetime:
         return str(self)
 
     def strftime(self, fmt):
-        return self.concrete().strftime(fmt)
+        """numeric directives stay symbolic (padded tokens); names fork over their 7 / 12 values"""
+        out = []
+        i = 0
+        while i < len(fmt):
+            ch = fmt[i]
+            if ch != '%' or i + 1 >= len(fmt):
+                out.append(ch)
+                i += 1
+                continue
+            d = fmt[i + 1]
+            i += 2
+            if d == '%':
+                out.append('%')
+            elif d == 'Y':
+                out.append(text.padded(self.year, 4))
+            elif d == 'm':
+                out.append(text.padded(self.month, 2))
+            elif d == 'd':
+                out.append(text.padded(self.day, 2))
+            elif d == 'H':
+                out.append(text.padded(self.hour, 2))
+            elif d == 'M':
+                out.append(text.padded(self.minute, 2))
+            elif d == 'S':
+                out.append(text.padded(self.second, 2))
+            elif d == 'f':
+                out.append(text.padded(self.microsecond, 6))
+            elif d == 'a':
+                if _sym(self.wall):
+                    # over-approximation: three arbitrary letters (the name is never parsed back)
+                    from . import chars
+                    out.append(chars.mk([65 + 0 * 1] + chars.fresh('strftime.a', 2, 97, 122, register=False).cps))
+                else:
+                    out.append(self.concrete().strftime('%a'))
+            elif d == 'b':
+                if _sym(self.wall):
+                    from . import chars
+                    out.append(chars.mk([65] + chars.fresh('strftime.b', 2, 97, 122, register=False).cps))
+                else:
+                    out.append(self.concrete().strftime('%b'))
+            elif d == 'Z':
+                out.append('' if self.tzinfo is None else (self.tzinfo.tzname(None) or ''))
+            else:
+                return self.concrete().strftime(fmt)
+        return text.sx_join('', out)
 
     def date(self):
         y, m, d = self.ymd()
@@ -731,6 +775,9 @@ class sx_datetime(_dt.datetime, metaclass=_Meta):
     def strptime(cls, s, fmt):
         if text.has_token(s):
             raise Unsupported('strptime on a token string')
+        from .chars import SymChars
+        if isinstance(s, SymChars):
+            return _strptime_sym(s, fmt)
         return _dt.datetime.strptime(s, fmt)
 
     @classmethod
@@ -748,6 +795,37 @@ class sx_datetime(_dt.datetime, metaclass=_Meta):
     @classmethod
     def utcfromtimestamp(cls, ts):
         return _dt.datetime.utcfromtimestamp(ts)
+
+
+def _strptime_sym(s, fmt):
+    """datetime.strptime on a symbolic string: CPython's own format regex (from _strptime) matched
+    by class partition, numeric directives converted by the integer model"""
+    import _strptime
+    import re as _re
+    from . import remodel, chars
+    try:
+        pattern = _strptime._TimeRE_cache.pattern(fmt)
+    except KeyError as e:
+        raise ValueError(f'bad directive in format {fmt!r}') from e
+    m = remodel.SxPattern(pattern, _re.IGNORECASE).match(s)
+    if m is None:
+        raise ValueError(f'time data does not match format {fmt!r}')
+    if m.end() != len(s):
+        raise ValueError('unconverted data remains')
+    g = m.groupdict()
+    if any(k not in 'YmdHMSf' for k in g):
+        raise Unsupported(f'strptime directive(s) {sorted(g)} on a symbolic string')
+    year = chars.parse_int(g['Y']) if 'Y' in g else 1900
+    month = chars.parse_int(g['m']) if 'm' in g else 1
+    day = chars.parse_int(g['d'].strip()) if 'd' in g else 1
+    hour = chars.parse_int(g['H']) if 'H' in g else 0
+    minute = chars.parse_int(g['M']) if 'M' in g else 0
+    second = chars.parse_int(g['S']) if 'S' in g else 0
+    if 'f' in g:
+        raise Unsupported('strptime %f on a symbolic string')
+    if not (second <= 59):
+        raise ValueError('second must be in 0..59')
+    return make_datetime(year, month, day, hour, minute, second)
 
 
 datetime_env = EnvModule(_dt, 'datetime', datetime=sx_datetime, timedelta=sx_timedelta)
